@@ -60,7 +60,7 @@ def main():
                         tags.add("C13")
                         # C13: verdict of a later call on the same solver is what z3 says about that problem alone
                         for v in list(viol):
-                            if v["prop"] in ("C01", "C02"):
+                            if v["prop"] in ("C01", "C02", "C04"):
                                 viol.append({"prop": "C13", "what": "solve #%d on a reused solver: %s" % (pi + 1, v["what"])})
                     for c in res.get("calls", []):
                         if c[0] in (0, 1):
